@@ -218,15 +218,42 @@ theorem unique_labels (labs : List Nat) :
   ⟨uniqSorted_pairwise labs, uniqSorted_nodup labs, fun l => mem_uniqSorted l labs⟩
 
 /-- **`hetero_loop_eq_homog_on_label`**: `HeterogeneousLinearModel.__call__` as coded — `result = zeros`, then one
-masked assignment `result[labels == label] = (scaling[i]·img + offset[i])[…]` per unique label — returns at
-every pixel the homogeneous `LinearModel(scaling[j], offset[j])` of that pixel's label, `j` being the label's
-position among the sorted unique labels; and every pixel's label has such a position (nothing stays 0). -/
-theorem hetero_loop_eq_homog_on_label (L : Nat) (s o : List Rat) (labs : List Nat) (xs : List Rat)
-    (hl : labs.length = xs.length) :
-    hetCall s o labs xs = List.zipWith (fun l x => match idxIn (uniqSorted labs) l with
-      | some j => (M.linear (listGetD s j 0) (listGetD o j 0)).applyPix ⟨j, x⟩ | none => 0) labs xs ∧
-    ∀ l ∈ labs, ∃ j, idxIn (uniqSorted labs) l = some j ∧ j < (uniqSorted labs).length :=
-  ⟨hetCall_eq_pointwise L s o labs xs hl, fun l h => label_has_index labs l h⟩
+masked assignment `result[cached_labels == label] = (scaling[i]·img + offset[i])[…]` per entry `(i, label)` of
+`enumerate(self.unique_labels)` (the unique labels `u` of the ORIGINAL map, any list without repetition) — returns
+at every pixel the homogeneous `LinearModel(scaling[j], offset[j])` of that pixel's label, `j` being the label's
+position in `u`; pixels whose label is not in `u` stay 0. -/
+theorem hetero_loop_eq_homog_on_label (L : Nat) (u : List Nat) (hu : u.Nodup) (s o : List Rat) (labs : List Nat)
+    (xs : List Rat) (hl : labs.length = xs.length) :
+    hetCall u s o labs xs = List.zipWith (fun l x => match idxIn u l with
+      | some j => (M.linear (listGetD s j 0) (listGetD o j 0)).applyPix ⟨j, x⟩ | none => 0) labs xs :=
+  hetCall_eq_pointwise L u hu s o labs xs hl
+
+/-- **composition with the label cache**: after ANY sequence of earlier calls, a call with a signal of shape
+`H × W` computes `hetCallResized`: the loop over the ORIGINAL unique labels on the label map
+`labelsFor labels H W` (original, or nearest-neighbour resize of the original). Every pixel gets the linear model
+of its label's position among the ORIGINAL labels — also when the resize has dropped other labels — and every
+label in force has such a position. -/
+theorem hetero_call_after_any_history (dev : Dev) (hd : DevOk dev = true) (labels : List (List Nat)) (w : Nat)
+    (hh : 0 < labels.length) (hw0 : 0 < w) (hrect : ∀ row ∈ labels, row.length = w)
+    (hw : (listGetD labels 0 []).length = w) (shapes : List (Nat × Nat)) (H W : Nat)
+    (hpos : ∀ sh ∈ shapes, 0 < sh.1) (hH : 0 < H) (s o : List Rat) (xs : List Rat)
+    (hl : (labelsFor dev labels H W).flatten.length = xs.length) :
+    cacheRun dev labels (shapes ++ [(H, W)]) = labelsFor dev labels H W ∧
+    hetCallResized dev labels s o H W xs = List.zipWith (fun l x => match idxIn (uniqSorted labels.flatten) l with
+      | some j => linF (listGetD s j 0) (listGetD o j 0) x | none => 0) (labelsFor dev labels H W).flatten xs ∧
+    ∀ l ∈ (labelsFor dev labels H W).flatten, ∃ j, idxIn (uniqSorted labels.flatten) l = some j := by
+  refine ⟨cacheRun_last dev hd labels w hrect hw shapes H W hpos hH, ?_, ?_⟩
+  · exact hetCall_eq_pointwise 0 _ (uniqSorted_nodup _) s o _ xs hl
+  · intro l hl'
+    have hmem : l ∈ labels.flatten := by
+      unfold labelsFor at hl'
+      split at hl'
+      · exact hl'
+      · obtain ⟨row, hrow, hlr⟩ := List.mem_flatten.mp hl'
+        obtain ⟨srow, hs, hv⟩ := resizeNearest_subset dev labels w H W hh hw0 hrect row hrow l hlr
+        exact List.mem_flatten.mpr ⟨srow, hs, hv⟩
+    obtain ⟨j, hj, _⟩ := label_has_index labels.flatten l hmem
+    exact ⟨j, hj⟩
 
 /-- the label-wise model returns the element type of the homogeneous model (after the `fix:` commit; the tie
 compares the element type of every result) -/
@@ -349,6 +376,9 @@ theorem poly_matches_code : ∀ d ∈ Gen.polyDegrees,
     Gen.polyTable d = (polyExps d).map some ∧ Gen.polySizeTable d = some (polySize d) := by decide
 
 /-! ### non-vacuity -/
+
+/-- a resize that DROPS a label (1 × 4 map `[0,1,2,2]` → 1 × 2 keeps `[0,2]`): label 2 keeps its own scaling 30 -/
+example : hetCallResized [] [[0, 1, 2, 2]] [10, 20, 30] [0, 0, 0] 1 2 [1, 1] = [10, 30] := by decide +kernel
 
 /-- coarse call, then native resolution: the original stripes are back -/
 example : cacheRun [] [[1, 2, 1, 2], [1, 2, 1, 2]] [(1, 2), (2, 4)] = [[1, 2, 1, 2], [1, 2, 1, 2]] ∧
